@@ -22,3 +22,11 @@ check("C02", "exploration",
       "Every reaction with sides of 1..2 molecules over an alphabet containing the molecules whose text carries the pipeline's string markers (OO, [H][H], COO, [Na]Cl ...), every marker molecule in every position, hand-built/special families (thorough: full alphabet, complete mapped corpus) through the real pipeline; per side the multiset of input molecules must be contained in the output's, input_reaction must be the input's molecules, no atom map may survive.",
       "Molecule identity = RDKit canonical SMILES per fragment; closed-shell domain without free H/O placeholders.",
       "bounded-exhaustive input enumeration through the real pipeline, multiset-containment oracle", "DESIGN.md 4/C02")
+check("C13", "exploration",
+      "Complete (reaction, threshold) products: thresholds = {0,0.5,1} + every observed confidence and both of its floating-point neighbours (+-1e-3 in thorough); pipeline level (whole rebalance runs compared with the t=0 run) and predictor level (rows captured at ConfidencePredictor.predict from real runs, predict re-executed for the complete per-batch threshold set; thorough: whole corpus).",
+      "The verdict is a comparison c >= t; every float boundary of every observed confidence is enumerated, other thresholds are covered by order.",
+      "bounded-exhaustive enumeration of (input, threshold) incl. floating-point neighbours, differential oracle vs t=0", "DESIGN.md 4/C13")
+check("C14", "exploration",
+      "Every reaction of Rxn(A14,2) (quick: 8-molecule alphabet + all one-molecule-per-side reactions of the 18-molecule alphabet) with a composition-determined baseline is re-run in every member of its finite spelling/order family (rooted, all atom permutations <=4 atoms, kekulised, explicit-H, three atom-mapped spellings, all side permutations); same verdict and same added molecules up to the redox template vocabulary.",
+      "'All equivalent spellings' = the finite Spell family; variants run as one batch (batch independence is C06).",
+      "bounded-exhaustive enumeration of spelling/order families, differential oracle vs canonical spelling", "DESIGN.md 4/C14")
